@@ -545,6 +545,30 @@ pub const NUM_TEXTS: [&str; 28] = [
     "18446744073709551615", "18446744073709551616", "", " ", "abc", "1.2.3", "0x10", " 5", "+5", "1e-400", "4294967295", "4294967296", "2147483648", "1e308", "1.7976931348623157e309",
 ];
 
+/// Text for a numeric element or attribute: the menu of extremes, or a long unparseable string
+/// (digits, letters or blanks) with a multi-byte character at a drawn byte position - such text
+/// ends up in error messages, buffers and length computations.
+pub fn num_text(r: &mut Rng) -> String {
+    if r.chance(6, 7) {
+        return r.pick(&NUM_TEXTS).to_string();
+    }
+    let unit = *r.pick(&["9", "x", "0", " ", "1e", "-"]);
+    let lead = if r.chance(1, 2) { 40 + r.usize_below(30) } else { r.usize_below(300) };
+    let mut t = String::new();
+    while t.len() < lead {
+        t.push_str(unit);
+    }
+    t.truncate(lead);
+    if r.chance(3, 4) {
+        t.push(*r.pick(&['\u{e4}', '\u{20ac}', '\u{1d11e}', '\u{feff}']));
+    }
+    let tail = r.usize_below(24);
+    for _ in 0..tail {
+        t.push(*r.pick(&['7', '.', 'e', '\u{e4}', '\u{20ac}', 'q']));
+    }
+    t
+}
+
 fn draw_u64(r: &mut Rng, file_len: u64, anchors: &[u64]) -> u64 {
     match r.below(14) {
         0 => 0,
@@ -592,21 +616,29 @@ pub fn draw_plan(r: &mut Rng, pristine: &[u8], map: &Decoded, size_targeted: boo
     for _ in 0..n {
         let kind = if size_targeted { *r.pick(&[20u64, 21, 22, 23, 24, 25, 26, 26]) } else if r.chance(1, 25) { 21 } else { r.below(20) };
         let m = match kind {
+            0 if r.chance(1, 3) => {
+                // two header fields that lie consistently: a huge XML length together with a
+                // stated file length that covers it (a check of one field against the other passes)
+                let l = *r.pick(&[1u64 << 30, 1 << 31, 1 << 32, 1 << 33, 1 << 40, 1 << 62, file_len.saturating_mul(4096)]);
+                let total = *r.pick(&[l.saturating_mul(2), l.saturating_add(file_len), 1 << 63, u64::MAX - 1023]);
+                muts.push(Mut::Header { field: 3, value: total });
+                Mut::Header { field: 5, value: l }
+            }
             0 => Mut::Header { field: r.below(7) as u8, value: draw_u64(r, file_len, &anchors) },
-            1 | 2 => Mut::XmlNumber { nth: r.usize_below(400), value: r.pick(&NUM_TEXTS).to_string() },
+            1 | 2 => Mut::XmlNumber { nth: r.usize_below(400), value: num_text(r) },
             3 => Mut::XmlAttr {
                 name: r.pick(&["fileOffset", "recordCount", "length"]).to_string(),
                 nth: r.usize_below(16),
                 value: match r.below(3) {
                     0 => draw_u64(r, file_len, &anchors).to_string(),
-                    1 => r.pick(&NUM_TEXTS).to_string(),
+                    1 => num_text(r),
                     _ => r.below(file_len * 2 + 2).to_string(),
                 },
             },
             4 => Mut::XmlAttr {
                 name: r.pick(&["minimum", "maximum", "scale", "offset"]).to_string(),
                 nth: r.usize_below(64),
-                value: r.pick(&NUM_TEXTS).to_string(),
+                value: num_text(r),
             },
             5 => Mut::XmlAttr {
                 name: "type".into(),
@@ -668,7 +700,7 @@ pub fn draw_plan(r: &mut Rng, pristine: &[u8], map: &Decoded, size_targeted: boo
                     tag: r.pick(&["pixelWidth", "pixelHeight", "imageWidth", "imageHeight", "focalLength", "radius", "principalPointY", "scale", "offset", "isAtomicClockReferenced", "dateTimeValue", "w", "x", "translation", "rotation", "intensityMaximum", "colorRedMinimum", "xMaximum", "rowMaximum"]).to_string(),
                     nth: r.usize_below(8),
                     sib: r.usize_below(12),
-                    value: r.pick(&NUM_TEXTS).to_string(),
+                    value: num_text(r),
                 },
                 1 => Mut::PacketBomb { cv: r.usize_below(4), kind: r.below(3) as u8 },
                 _ => Mut::XmlEntityBomb { unit: *r.pick(&[64usize, 4096, 16384]), fan: *r.pick(&[10usize, 250]), refs: *r.pick(&[1usize, 4, 8]) },
